@@ -19,6 +19,8 @@ Next == /\ (OneStep => last = None)
            \/ \E t2 \in Instants, lg \in Largests, s \in BOOLEAN : DiffAct(t2, lg, s)
            \/ SodAct \/ HidAct
            \/ \E sod \in {0, 1800, 2 * 3600 + 1800, 3 * 3600, 12 * 3600, 86399} : WptAct(sod)
+           \* ... and the time the receiver already shows: inside a repeated interval the answer is the EARLIER occurrence, not the receiver
+           \/ WptAct(Wall(cur.z, cur.t) % 86400)
 Spec == Init /\ [][Next]_vars
 
 IsDiff == last.op \in {"until", "since"} /\ last.out.kind = "ok"
